@@ -236,15 +236,23 @@ class TFlow(InterFlow):
             return NotImplemented
 
         class Ev(IntEval):
+            active = set()
+
             def ev(s, x, st_):
                 if isinstance(x, ast.Name) and x.id not in st_ and x.id not in s.sym:
+                    if x.id in s.active:
+                        raise AnalysisError("self-referential definition of %s" % x.id)
                     d = single_def(fi, x.id)
                     if d and d[1] is not None:
-                        return s.ev(d[1], st_)
+                        s.active.add(x.id)
+                        try:
+                            return s.ev(d[1], st_)
+                        finally:
+                            s.active.discard(x.id)
                 return super().ev(x, st_)
         try:
             v = Ev({k: v for k, v in state.items() if not k.endswith(")")}, on_call).ev(e, {})
-        except (AnalysisError, TypeError, IndexError, KeyError, ValueError):
+        except (AnalysisError, TypeError, IndexError, KeyError, ValueError, RecursionError, AttributeError):
             return None
         if isinstance(v, bool):
             self.inter.decided_on_state.append(norm(e))
@@ -686,6 +694,31 @@ def cli_rule(ctx, rid):
         rr.ok("main: every normal exit passes crop.grow_missing(**grow_kwargs)")
     else:
         rr.bad(ctx.finding(rid, main, c, "a normal exit of the CLI is reachable without growing the missing batches", construct="cli-skip"), "cli grows on all paths")
+    # the "not sown" refusal guards the unprepared crop, not the prepared one
+    for t_ in [x for x in ast.walk(main.node) if isinstance(x, ast.If) and any(isinstance(y, ast.Call) and isinstance(y.func, ast.Attribute) and y.func.attr == "is_prepared" for y in ast.walk(x.test))]:
+        raises_in_body = any(isinstance(y, ast.Raise) for y in ast.walk(ast.Module(body=t_.body, type_ignores=[])))
+        neg = isinstance(t_.test, ast.UnaryOp) and isinstance(t_.test.op, ast.Not)
+        if raises_in_body and not neg:
+            rr.bad(ctx.finding(rid, main, t_.test, "the CLI refuses (raises) when the crop *is* prepared and goes on when it is not: a sown crop can never be grown from the command line", construct="cli-prepared-polarity"), "cli prepared check")
+        elif raises_in_body:
+            rr.ok("the CLI refuses exactly the crop that has not been sown")
+    # every attribute read from the parsed arguments is defined by an add_argument
+    defined = set()
+    for x in ast.walk(main.node):
+        if isinstance(x, ast.Call) and isinstance(x.func, ast.Attribute) and x.func.attr == "add_argument":
+            for a_ in x.args:
+                if isinstance(a_, ast.Constant) and isinstance(a_.value, str):
+                    defined.add(a_.value.lstrip("-").replace("-", "_"))
+            d_ = arg(x, None, "dest")
+            if isinstance(d_, ast.Constant):
+                defined.add(d_.value)
+    used = {x.attr for x in ast.walk(main.node) if isinstance(x, ast.Attribute) and isinstance(x.value, ast.Name) and x.value.id == "args"}
+    if defined:
+        undefined = sorted(used - defined)
+        if undefined:
+            rr.bad(ctx.finding(rid, main, main.node, "the CLI reads args.%s, which no add_argument defines: AttributeError before anything is grown" % undefined[0], construct="cli-arg-undefined " + undefined[0]), "cli arguments defined")
+        else:
+            rr.ok("every args.<name> read (%s) is defined by the parser" % ", ".join(sorted(used)))
     # kwargs keys accepted by the enumerator
     core = prog.need_func("xyzpy.gen.combo_runner.combo_runner_core")
     keys = set()
